@@ -159,6 +159,9 @@ def field_domain(schema, f):
         out.append({"k": "map", "es": es})
         return out
     dom = single_domain(schema, f, k)
+    if k == "message" and card in ("optional", "oneof"):
+        # a fresh, never assigned message object given to an explicit-presence field is present (and empty)
+        dom = dom + [{"k": "msg", "m": fresh(schema, f["msg"]), "fresh": True}]
     if card in ("optional", "oneof") or k in ("message", "wrap"):
         return [{"k": "unset"}] + dom
     return dom
